@@ -122,6 +122,12 @@ pub fn render(f: &FactSet, spec: &TextSpec) -> TextFiles {
             } else {
                 obo.push_str(&format!("is_a: {} ! {}\n", hp(p), label));
             }
+            // the same is_a fact stated twice in one stanza (a merge artefact): still one link
+            if spec.dup.hits(k ^ (u64::from(p) << 9)) > 0 {
+                obo.push_str(&format!("is_a: {} ! {}\n", hp(p), label));
+                out.dup_rows += 1;
+                *out.injected.entry("is_a-line-repeated").or_default() += 1;
+            }
         }
         if ign(6, k) {
             obo.push_str("property_value: http://purl.org/dc/elements/1.1/date \"2021-06-21T10:00:00Z\" xsd:dateTime\n");
